@@ -686,7 +686,8 @@ def weave(fn_text, spec=None, hints=()):
         else:
             raise SliceError("unknown anchor %r" % (anchor,))
     out = fn_text
-    for p, text, _ in sorted(inserts, key=lambda x: -x[0]):
+    # equal positions: keep template order (later hints are inserted first so they end up after)
+    for _idx, (p, text, _k) in sorted(enumerate(inserts), key=lambda x: (-x[1][0], -x[0])):
         out = out[:p] + text + out[p:]
     return out
 
